@@ -152,14 +152,13 @@ func (p *gcpPicker) detectUnresponsive(ctx context.Context, scRef *subConnRef, c
 		return
 	}
 
-	lastResp := scRef.getLastResp()
-	if callStarted.Before(lastResp) {
+	// Count the call, unless it started before the last response, and check if there were
+	// enough deadline exceeded calls and enough time passed since last response to trigger refresh.
+	deCalls, lastResp, counted := scRef.deCallEnded(callStarted)
+	if !counted {
 		return
 	}
-
-	// Increment deadline exceeded calls and check if there were enough deadline
-	// exceeded calls and enough time passed since last response to trigger refresh.
-	if scRef.deCallsInc() >= p.gb.cfg.GetChannelPool().GetUnresponsiveCalls() &&
+	if deCalls >= p.gb.cfg.GetChannelPool().GetUnresponsiveCalls() &&
 		lastResp.Before(time.Now().Add(-p.unresponsiveWindow(scRef))) {
 		// The decision is made without the balancer lock: it holds only as long as
 		// lastResp is still the subConnRef's last response time.
